@@ -75,6 +75,8 @@ def c16_plan(tier, seed, known):
     jobs += split_jobs("e1store", "C16", seed, n_l2, 4, 1, "default", known, tier, extra=["--l2"], base=50_000_000)
     # crash without goodbye: the history in a child process that _exit()s at storage write k (every k it reaches)
     jobs += split_jobs("e1store", "C16", seed, 600 if thorough else 48, 2, 8, "default", known, tier, extra=["--crash"], base=60_000_000)
+    # storage configurations: reopen under another valid configuration, invalid/unsupported ones give clean errors
+    jobs += split_jobs("e1store", "C16", seed, 300 if thorough else 40, 1, 4, "default", known, tier, extra=["--configs"], base=65_000_000)
     # reopen while the storage lock is still held (simulated clock): acknowledged data must survive
     jobs += split_jobs("e5d", "C16", seed, 400 if thorough else 80, 1, 1, "default", known, tier, base=70_000_000)
     return {
